@@ -51,9 +51,9 @@ def run(ctx) -> None:
         ("rule setting only one flag after a full-match rule", [strict, {"config": {"operands-full-match": False}, "pattern": plain}]),
         ("full-match rule after a plain rule", [{"pattern": plain}, strict])])
     # H: the k-th operand is the k-th comma-terminated field only if no field carries a ',' (shared with C10.F / C09.N1)
-    from ..normflow import decision_table
+    from ..normflow import decision_table, decision_table_if_applicable
     from .c10 import _raw_slot
-    for a, row, outs, raises in decision_table(make_interp(ctx.p)):
+    for a, row, outs, raises in decision_table_if_applicable(ctx, make_interp(ctx.p)):
         if a["has,"] and a["has("] and a["has)"]:
             cls = "&".join(k for k, v in a.items() if v)
             raw = [o for o in outs if _raw_slot(o)]
@@ -63,6 +63,7 @@ def run(ctx) -> None:
     # H: every operand form objdump prints reaches the stream in its normal form (token templates; incl. the 16-bit forms)
     from .. import shapes as _sh
     _sh.normal_form_rule(ctx, make_interp(ctx.p), "C01.H.operand-normal-forms", listed_only=False)
+    _sh.decorated_operand_rule(ctx, make_interp(ctx.p), "C01.H.decorated-operand-is-one-field")
     # R8: the listing the verdict is about is the file's text as Python's text mode reads it
     from ._matchrules import assembly_text_unmodified
     assembly_text_unmodified(ctx, "C01.R8.listing-text-unmodified")
